@@ -25,10 +25,9 @@
    exactly the given host and the given-or-default port.  Nothing is claimed about
    resolving the host or the port (net.LookupPort of a service name the user wrote is
    the user's business; a default port prints as digits, C20_ports_are_ok).
-   "host:" and "[v6]:" - a separator with an EMPTY port - are neither "with" nor
-   "without a port" in the property's quantifier (port present / absent, all port
-   NUMBERS) and port_ok excludes them; C20_empty_port_not_defaulted states what the code
-   does with them, since transports and certificate checker differ there. *)
+   "host:" and "[v6]:" - a separator with an EMPTY port - give no port: port_ok (an
+   EXPLICIT port) excludes the empty string, and C20_empty_port_is_no_port states that
+   these forms are completed and dialled like the address without the colon. *)
 From Coq Require Import List ZArith NArith Bool.
 From XV Require Import Lib.Sx Model.Addr Proofs.AddrP Gen.Generated.
 Import ListNotations.
@@ -153,24 +152,29 @@ Theorem C20_dial_srv :
   (forall (x : str) (n : Z), v6 x = true -> dials (ensure_port (c_lbr :: x ++ [c_rbr]) n) x (itoa n)).
 Proof. split; [exact dial_srv_name|]. split; [exact dial_srv_bare_v6|exact dial_srv_bracketed_v6]. Qed.
 
-(* Outside the property's forms, stated because the two halves of the library differ:
-   "host:" and "[v6]:" (empty port).  Both transports keep the address as it is - a
-   SplitHostPort-valid host:port with the empty port, which net.Dial resolves to port 0,
-   NOT 5222 - while the certificate checker reads the empty port as "no port" and dials
-   5222. *)
-Theorem C20_empty_port_not_defaulted :
+(* "host:" and "[v6]:" - a separator with an EMPTY port.  None was given, so the default
+   is due (REPAIRED, hunt2 C20/f1: ensurePort used to return such an address unchanged,
+   the transports dialled it and net.Dial made TCP port 0 of the empty port, while the
+   certificate checker already read it as "no port").  For every port argument n the
+   result is host:n; both constructors and the certificate checker dial exactly the
+   given host and 5222 - the same as for the address without the colon. *)
+Theorem C20_empty_port_is_no_port :
+  (forall (h : str) (n : Z), name_or_v4 h = true ->
+     ensure_port (h ++ [c_colon]) n = h ++ c_colon :: itoa n /\
+     split_host_port (ensure_port (h ++ [c_colon]) n) = SplitOk h (itoa n)) /\
+  (forall (x : str) (n : Z), v6 x = true ->
+     ensure_port (c_lbr :: x ++ [c_rbr; c_colon]) n = c_lbr :: x ++ c_rbr :: c_colon :: itoa n /\
+     split_host_port (ensure_port (c_lbr :: x ++ [c_rbr; c_colon]) n) = SplitOk x (itoa n)) /\
   (forall h : str, name_or_v4 h = true ->
-     client_transport (h ++ [c_colon]) = Tcp (h ++ [c_colon]) /\
-     component_transport (h ++ [c_colon]) = Tcp (h ++ [c_colon]) /\
-     split_host_port (h ++ [c_colon]) = SplitOk h [] /\
-     checker_params (h ++ [c_colon]) = Some (h ++ c_colon :: itoa 5222, h)) /\
+     dials (h ++ [c_colon]) h default_port /\ checks (h ++ [c_colon]) h default_port) /\
   (forall x : str, v6 x = true ->
-     client_transport (c_lbr :: x ++ [c_rbr; c_colon]) = Tcp (c_lbr :: x ++ [c_rbr; c_colon]) /\
-     component_transport (c_lbr :: x ++ [c_rbr; c_colon]) = Tcp (c_lbr :: x ++ [c_rbr; c_colon]) /\
-     split_host_port (c_lbr :: x ++ [c_rbr; c_colon]) = SplitOk x [] /\
-     checker_params (c_lbr :: x ++ [c_rbr; c_colon])
-       = Some (c_lbr :: x ++ c_rbr :: c_colon :: itoa 5222, x)).
-Proof. split; [exact empty_port_name|exact empty_port_bracketed]. Qed.
+     dials (c_lbr :: x ++ [c_rbr; c_colon]) x default_port /\
+     checks (c_lbr :: x ++ [c_rbr; c_colon]) x default_port).
+Proof.
+  split; [exact T_empty_name|]. split; [exact T_empty_bracketed|].
+  split; [intros h H; split; [exact (dial_empty_name h H)|exact (check_empty_name h H)]|].
+  intros x H; split; [exact (dial_empty_bracketed x H)|exact (check_empty_bracketed x H)].
+Qed.
 
 (* the certificate checker (NewChecker) accepts every form and dials the same
    host:port ([checks a h p]: accepted, host h, dial address splits into h and p) *)
@@ -229,7 +233,7 @@ Print Assumptions C20_default_port.
 Print Assumptions C20_ensure_port_idempotent.
 Print Assumptions C20_dial_srv.
 Print Assumptions C20_redial_keeps_host.
-Print Assumptions C20_empty_port_not_defaulted.
+Print Assumptions C20_empty_port_is_no_port.
 Print Assumptions C20_T6_scheme.
 Print Assumptions C20_T6_no_scheme.
 Print Assumptions C20_dial_host_without_port.
